@@ -420,9 +420,12 @@ void prop_c14(hz::Ctx &ctx) {
   {
     hz::Rng r(ctx.seed ^ 0x14c); int np = ctx.thorough() ? 6000 : 900;
     for (int t = 0; t < np; t++) {
-      static const int CB[] = {65535, 65537, 65521, 99991, 100000, 131071, 262145, 1000003, 46341, 33333, 4097, 12289}; int c = t % 3 == 0 ? CB[r.below(12)] : 1000 + (int)r.below(1 << 20); int m = 1 + (int)r.below(t % 2 ? 64 : 8); long long pos = (long long)m * c - (long long)r.below(16); if (pos < 0 || pos > (48LL << 20)) continue;
+      static const int CB[] = {65535, 65537, 65521, 99991, 100000, 131071, 262145, 1000003, 46341, 33333, 4097, 12289}; int c = t % 3 == 0 ? CB[r.below(12)] : 1000 + (int)r.below(1 << 20); int m = 1 + (int)r.below(t % 2 ? 64 : 8); long long pos = (long long)m * c - (long long)r.below(16);
+      // every worker draws the same numbers whether or not the case is its own (the sharding index must advance alike everywhere)
+      int combo_t = (int)r.below(12); size_t li_t[3]; for (int i = 0; i < 3; i++) li_t[i] = r.below(reps.size());
+      if (pos < 0 || pos > (48LL << 20)) continue;
       if (!ctx.take()) continue;
-      ChunkCase k; k.counting = true; k.internal = true; k.c = c; k.start = (int)pos; k.combo = (int)r.below(12); k.calls = 1; for (int i = 0; i < 3; i++) k.lines.push_back(reps[r.below(reps.size())]);
+      ChunkCase k; k.counting = true; k.internal = true; k.c = c; k.start = (int)pos; k.combo = combo_t; k.calls = 1; for (int i = 0; i < 3; i++) k.lines.push_back(reps[li_t[i]]);
       std::string id = serck(k); if (!ctx.begin(id, join(k.lines, "\\n"))) continue;
       int want = 0; HV v = check14(k, &want);
       ctx.cls("part:large-chunk-large-position"); if (want >= 1) ctx.nontrivial(id);
